@@ -215,6 +215,39 @@ func changedBytes(in, out []byte, pathOff int, leaving bool) int {
 type c12 struct {
 	e *vlib.Env
 	r *vlib.Rand
+	// c07: serve property C07 - only the byte-level statement for one-hop packets is judged
+	c07 bool
+}
+
+// c07Classify compares a forwarded one-hop packet with the received one for statement C07: it returns
+// "" (only SegID resp. second hop field changed), "length", "reserved" (in addition only reserved bits of
+// the info/hop flag bytes or the info field's reserved byte were cleared) or "bytes", and the first
+// offending offset.
+func c07Classify(in, out []byte, pathOff int, leaving bool) (string, int) {
+	if len(in) != len(out) {
+		return "length", len(out)
+	}
+	reserved := -1
+	for i := range in {
+		if in[i] == out[i] {
+			continue
+		}
+		o := i - pathOff
+		switch {
+		case leaving && (o == 2 || o == 3):
+		case !leaving && o >= 20 && o < 32:
+		case (o == 0 || o == 8 || (leaving && o == 20)) && out[i] == in[i]&0x03, o == 1 && out[i] == 0:
+			if reserved < 0 {
+				reserved = i
+			}
+		default:
+			return "bytes", i
+		}
+	}
+	if reserved >= 0 {
+		return "reserved", reserved
+	}
+	return "", -1
 }
 
 func ohpOp(a *asCfg, via uint16, raw []byte, resolves bool) string {
@@ -279,10 +312,28 @@ func (c *c12) predicate(a *asCfg, via uint16, raw []byte, res router.VerifR2Resu
 		return
 	}
 	bad := func(key, what string) {
+		if c.c07 {
+			return // C12's clauses are judged by ./check C12
+		}
 		c.e.Violate("C12/"+key, what, map[string]any{"op": op, "raw": vlib.Hex(raw), "via": via,
 			"local": a.ia.String(), "out": vlib.Hex(res.Out), "egress": res.Egress})
 	}
 	h, _ := parseRawHdr(raw)
+	if c.c07 {
+		leaving := a.ingressOf(via) == 0
+		kind, off := c07Classify(raw, res.Out, 12+h.addrLen, leaving)
+		rep := map[string]any{"op": op, "raw": vlib.Hex(raw), "via": via, "local": a.ia.String(), "out": vlib.Hex(res.Out),
+			"egress": res.Egress, "leaving": leaving, "offset": off, "path_offset": 12 + h.addrLen}
+		switch kind {
+		case "length":
+			c.e.Violate("C07/ohp-length-changed", fmt.Sprintf("one-hop packet forwarded with another length (%d -> %d)", len(raw), len(res.Out)), rep)
+		case "bytes":
+			c.e.Violate("C07/ohp-bytes-changed", fmt.Sprintf("forwarded one-hop packet differs from the received one at offset %d, outside the segment identifier / second hop field", off), rep)
+		case "reserved":
+			c.e.Violate("C07/reserved-bits-cleared", fmt.Sprintf("byte %d: reserved bits of the one-hop path's info / hop field cleared by re-serialisation (%02x -> %02x)", off, raw[off], res.Out[off]), rep)
+		}
+		return
+	}
 	reg := h.pathRegion(raw)
 	if len(reg) < 32 {
 		bad("short-path", "forwarded a packet whose header leaves less than 32 bytes for the one-hop path")
@@ -366,6 +417,9 @@ func (c *c12) predicate(a *asCfg, via uint16, raw []byte, res router.VerifR2Resu
 // reversal: the completed one-hop path, reversed by the destination, is accepted by the local
 // router (B, from the internal side) and by the neighbour (A, over the external link).
 func (c *c12) reversal(a, b *asCfg, aIf, bIf uint16, completed []byte, op string) {
+	if c.c07 {
+		return
+	}
 	bad := func(key, what string, extra map[string]any) {
 		m := map[string]any{"op": op, "completed": vlib.Hex(completed), "A": a.ia.String(), "B": b.ia.String()}
 		for k, v := range extra {
@@ -567,13 +621,15 @@ func (c *c12) run() {
 		"second hop prefilled, reserved bits, HdrLen slack, destination host kind, L4 kind, wrong receiving interface), 30% with HBH / E2E / HBH+E2E extension headers; " +
 		"4 packet processors of one data plane handling valid one-hop packets concurrently vs. one processor; " +
 		"non-trivial = every packet (all reach processOHP or the header decoder's length check); distinct by op line"
-	c.bfdSendCases(e.N(12, 120))
+	if !c.c07 {
+		c.bfdSendCases(e.N(12, 120))
+	}
 	npairs := e.N(24, 200)
 	per := e.N(500, 4000)
 	other := ia(3, 0xff0000000999)
 	for pi := 0; pi < npairs; pi++ {
 		A, B, aIf, bIf := c.mkPair(pi)
-		if pi < e.N(3, 12) {
+		if pi < e.N(3, 12) && !c.c07 {
 			c.concurrent(A, B, aIf, bIf, e.N(800, 4000))
 		}
 		for k := 0; k < per; k++ {
